@@ -192,6 +192,7 @@ def fails_closed_ok(case) -> bool:
 
 # ------------------------------------------------------------------------------------------------ strategies
 _lab = st.text("abcdefghijklmnopqrstuvwxyz0123456789", min_size=2, max_size=5)  # keeps every name <= 64 chars (CN limit)
+_tld_lab = st.text("abcdefghijklmnopqrstuvwxyz", min_size=2, max_size=5)
 _lab_h = st.one_of(_lab, st.tuples(_lab, _lab).map(lambda t: t[0] + "-" + t[1]))
 _ulab = st.tuples(_lab, st.sampled_from(["ü", "é", "例", "αβ"]), st.text("abc", max_size=3)).map(lambda t: t[0] + t[1] + t[2])
 
@@ -206,10 +207,10 @@ def _rows(draw):
         case["ip"] = str(ipaddress.IPv6Address(draw(st.one_of(st.integers(1, 2 ** 128 - 2),
                                                               st.integers(1, 0xFFFF).map(lambda x: (0x20010DB8 << 96) + x)))))
     elif ident == "single":
-        case["labels"] = [draw(_lab_h)]
+        case["labels"] = [draw(_tld_lab)]
     else:
         n = 4 if ident == "dns4" else 3
-        labels = [draw(_lab_h) for _ in range(n)]
+        labels = [draw(_lab_h) for _ in range(n - 1)] + [draw(_tld_lab)]  # an all-numeric last label would make it an IPv4 look-alike
         if ident == "idn":
             labels[draw(st.integers(0, n - 2))] = draw(_ulab)
         if ident == "upper":
